@@ -22,7 +22,16 @@
    the bytes in the signal pipe, [now] the virtual clock, [rand] the stream random() returns.
 
    User callbacks are data: [beh key n] is what the n-th invocation of a callback registered with user
-   data [key] does (a list of API calls / environment actions) and returns. *)
+   data [key] does (a list of API calls / environment actions) and returns.
+
+   Code variants: the state carries a record [fixes] saying which repairs the modelled tree contains
+   (a failed poll add clears the whole entry; signal_del removes every clone; run starts with the todo
+   left over).  [tree_fixes] is computed from constants that harness/consts/loop.c obtains by probing the
+   behaviour of the tree on every run, so the same model follows /repo before and after those commits.
+
+   Ghost log: besides the observable events the state's [out] records, for the theorems only, the
+   creation (EvAdd), callback entry (EvInv) and removal (EvDel) of every registration, identified by a
+   uid taken from an allocation counter at the add call. *)
 Require Import ZArith List Bool Lia.
 Require Import Verif.gen.Consts_loop.
 Import ListNotations.
